@@ -13,7 +13,8 @@ def run(ctx):
                 "class = (pulse shape, layout, bias slope, linear element, sps parity/size, pattern class, PPM order/decision)")
     T = ctx.thorough
     cfg = "SPECIFICATION Spec\nINVARIANT DecodedIsSent\nINVARIANT InterfaceOK\nPROPERTY Completes\nCHECK_DEADLOCK FALSE\n"
-    ctx.tlc("MC_Link", cfg + "CONSTANTS MaxBits = %d\n SpsVals = {4,5,8}\n" % (7 if T else 6), note="every bit string with both symbols x every plan", timeout=3000)
+    ctx.tlc("MC_Link", cfg + "CONSTANTS MaxBits = %d\n SpsVals = {4,5,8}\n" % (7 if T else 6), note="every bit string with both symbols x every plan", timeout=3000,
+            actions=["DAC", "MZM", "Linear", "PD", "Sample", "Decide"])
     r = ctx.tlc("MC_Link", "SPECIFICATION Spec\nINVARIANT DecodedIsSent\nINVARIANT InterfaceOK\nINVARIANT Emit\nCHECK_DEADLOCK FALSE\nCONSTANTS MaxBits = 5\n SpsVals = {4,5,8}\n",
                 workers=1, note="replayed chains", count=False, timeout=3000)
     ctx.exhaustive = True
